@@ -1,8 +1,10 @@
 package main
 
 import (
+	"encoding/json"
 	"fmt"
 	"os"
+	"sort"
 	"strconv"
 	"strings"
 
@@ -25,10 +27,13 @@ func (r *recGen) GenerateKey(h string) string { r.hashes = append(r.hashes, h); 
 func (r *recGen) PutBack(h, u string)         {}
 
 type c16State struct {
-	gen     *client.SimpleIdempotentKeyGenerator
-	cap     int
-	tokID   map[string]int // uuid -> canonical number (first appearance)
-	hashID  map[string]int // md5 -> canonical number
+	gen    *client.SimpleIdempotentKeyGenerator
+	cap    int
+	tokID  map[string]int    // uuid -> canonical number (first appearance)
+	hashID map[string]int    // md5 -> canonical number
+	fp     string            // fingerprint of the request the last builder produced (request as sent, token removed)
+	hashFP map[string]string // md5 -> fingerprint of the first request that hashed to it
+	fpHash map[string]string // fingerprint -> md5
 	// monitor state
 	out      map[string]bool   // tokens in flight
 	prov     map[string]string // token -> hash of first issue
@@ -39,7 +44,7 @@ type c16State struct {
 
 func newC16State(cap int) *c16State {
 	os.Setenv("IDEMPOTENT_KEY_CACHE_SIZE", strconv.Itoa(cap))
-	return &c16State{gen: client.NewIdempotentKeyGenerator(), cap: cap, tokID: map[string]int{}, hashID: map[string]int{},
+	return &c16State{gen: client.NewIdempotentKeyGenerator(), cap: cap, tokID: map[string]int{}, hashID: map[string]int{}, hashFP: map[string]string{}, fpHash: map[string]string{},
 		out: map[string]bool{}, prov: map[string]string{}, lastPut: map[string]string{}, sincePut: map[string]int{}, contract: true}
 }
 
@@ -107,14 +112,14 @@ func (s *c16State) putBack(h, u string) {
 }
 
 type c16Params struct {
-	vsw                string
-	trunk, erdma       bool
-	sgs                []string
-	rg                 string
-	ipc, ip6c          int
-	dor, sdc           *bool
-	tags               [][2]string // iteration order as generated
-	eni, inst, zone    string
+	vsw             string
+	trunk, erdma    bool
+	sgs             []string
+	rg              string
+	ipc, ip6c       int
+	dor, sdc        *bool
+	tags            [][2]string // iteration order as generated
+	eni, inst, zone string
 }
 
 func optB(b *bool) string {
@@ -204,6 +209,46 @@ func (p *c16Params) options() *client.CreateNetworkInterfaceOptions {
 	}}
 }
 
+// reqFingerprint renders a request as it is sent, without its client token.
+func reqFingerprint(req any) string {
+	b, err := json.Marshal(req)
+	if err != nil {
+		return ""
+	}
+	var m map[string]any
+	if json.Unmarshal(b, &m) != nil {
+		return ""
+	}
+	delete(m, "ClientToken")
+	b, _ = json.Marshal(m)
+	return string(b)
+}
+
+// fpDiff names the top-level request fields in which two fingerprints differ.
+func fpDiff(a, b string) string {
+	var ma, mb map[string]any
+	ia, ib := strings.Index(a, "{"), strings.Index(b, "{")
+	if ia < 0 || ib < 0 || json.Unmarshal([]byte(a[ia:]), &ma) != nil || json.Unmarshal([]byte(b[ib:]), &mb) != nil {
+		return a + " vs " + b
+	}
+	var ks []string
+	for k, va := range ma {
+		ja, _ := json.Marshal(va)
+		jb, _ := json.Marshal(mb[k])
+		if string(ja) != string(jb) {
+			ks = append(ks, fmt.Sprintf("%s: %s vs %s", k, ja, jb))
+		}
+	}
+	for k, vb := range mb {
+		if _, ok := ma[k]; !ok {
+			jb, _ := json.Marshal(vb)
+			ks = append(ks, fmt.Sprintf("%s: absent vs %s", k, jb))
+		}
+	}
+	sort.Strings(ks)
+	return strings.Join(ks, "; ")
+}
+
 // hashOf runs a builder several times with a recording generator; all runs must hash alike.
 func (s *c16State) hashOf(c *Ctx, op string, build func(g client.IdempotentKeyGen) (string, error)) string {
 	rg := &recGen{}
@@ -222,6 +267,21 @@ func (s *c16State) hashOf(c *Ctx, op string, build func(g client.IdempotentKeyGe
 		}
 	}
 	h := rg.hashes[0]
+	// property-level, model-independent: the hash (hence the token a retry finds) is determined by the request as it
+	// is sent, and two requests that differ in what is sent never hash alike
+	if s.fp != "" {
+		if prev, ok := s.hashFP[h]; ok && prev != s.fp {
+			c.Violate("C16/different-requests-same-hash", fmt.Sprintf("two requests that differ in what is sent share one parameter hash (so a failed attempt's token is handed to the other); they differ in %s", fpDiff(prev, s.fp)), op)
+		} else if !ok {
+			s.hashFP[h] = s.fp
+		}
+		if ph, ok := s.fpHash[s.fp]; ok && ph != h {
+			c.Violate("C16/same-request-different-hash", "two builds of the same request hash differently, so the retry cannot find the failed attempt's token: "+s.fp, op)
+		} else if !ok {
+			s.fpHash[s.fp] = h
+		}
+		s.fp = ""
+	}
 	if _, ok := s.hashID[h]; !ok {
 		s.hashID[h] = len(s.hashID)
 	}
@@ -247,7 +307,7 @@ func c16Exec(c *Ctx, ops []string) []string {
 				s = newC16State(n)
 				return "ok"
 			case "tok.hreset":
-				s.hashID = map[string]int{}
+				s.hashID, s.hashFP, s.fpHash = map[string]int{}, map[string]string{}, map[string]string{}
 				return "ok"
 			case "tok.gen":
 				return s.tokName(s.generate(c, "H"+f[1], trace))
@@ -265,6 +325,7 @@ func c16Exec(c *Ctx, ops []string) []string {
 					if err != nil {
 						return "", err
 					}
+					s.fp = "create " + reqFingerprint(req)
 					var ks []string
 					if req.Tag != nil {
 						for _, t := range *req.Tag {
@@ -286,7 +347,10 @@ func c16Exec(c *Ctx, ops []string) []string {
 				}
 				p.inst, p.zone = unhexStr(f[10]), unhexStr(f[11])
 				return s.hashOf(c, op, func(g client.IdempotentKeyGen) (string, error) {
-					_, _, err := p.options().EFLO(g)
+					req, _, err := p.options().EFLO(g)
+					if err == nil {
+						s.fp = "eflo " + reqFingerprint(req)
+					}
 					return "", err
 				})
 			case "tok.hassign4", "tok.hassign6":
@@ -296,9 +360,17 @@ func c16Exec(c *Ctx, ops []string) []string {
 					o := &client.NetworkInterfaceOptions{NetworkInterfaceID: eni, IPCount: n, IPv6Count: n}
 					var err error
 					if f[0] == "tok.hassign4" {
-						_, _, err = (&client.AssignPrivateIPAddressOptions{NetworkInterfaceOptions: o}).Finish(g)
+						var req any
+						req, _, err = (&client.AssignPrivateIPAddressOptions{NetworkInterfaceOptions: o}).Finish(g)
+						if err == nil {
+							s.fp = "assign4 " + reqFingerprint(req)
+						}
 					} else {
-						_, _, err = (&client.AssignIPv6AddressesOptions{NetworkInterfaceOptions: o}).Finish(g)
+						var req any
+						req, _, err = (&client.AssignIPv6AddressesOptions{NetworkInterfaceOptions: o}).Finish(g)
+						if err == nil {
+							s.fp = "assign6 " + reqFingerprint(req)
+						}
 					}
 					return "", err
 				})
